@@ -3,6 +3,7 @@ package clisim
 import (
 	"bytes"
 	"fmt"
+	"net/url"
 	"path/filepath"
 	"regexp"
 	"sort"
@@ -52,6 +53,12 @@ type Inv struct {
 	JSKeepVarNames                                                        bool
 	CSSPrecision, SVGPrecision, JSONPrecision                             int
 	XMLKeepWhitespace, JSONKeepNumbers                                    bool
+	// the remaining documented minifier flags
+	HTMLKeepSpecialComments, HTMLKeepDefaultAttrVals, HTMLKeepDocumentTags bool
+	SVGKeepComments                                                        bool
+	JSPrecision, JSVersion                                                 int
+	URL                                                                    string // --url
+	UseMime                                                                bool   // spell --type as the deprecated --mime
 }
 
 type Filter struct {
@@ -81,7 +88,14 @@ func (iv *Inv) Args() []string {
 		a = append(a, "-v")
 	}
 	if iv.Type != "" {
-		a = append(a, "--type="+iv.Type)
+		if iv.UseMime {
+			a = append(a, "--mime="+iv.Type)
+		} else {
+			a = append(a, "--type="+iv.Type)
+		}
+	}
+	if iv.URL != "" {
+		a = append(a, "--url="+iv.URL)
 	}
 	if iv.Preserve != "" {
 		a = append(a, "--preserve="+iv.Preserve)
@@ -116,6 +130,16 @@ func (iv *Inv) Args() []string {
 	flag(iv.JSKeepVarNames, "--js-keep-var-names")
 	flag(iv.XMLKeepWhitespace, "--xml-keep-whitespace")
 	flag(iv.JSONKeepNumbers, "--json-keep-numbers")
+	flag(iv.HTMLKeepSpecialComments, "--html-keep-special-comments")
+	flag(iv.HTMLKeepDefaultAttrVals, "--html-keep-default-attrvals")
+	flag(iv.HTMLKeepDocumentTags, "--html-keep-document-tags")
+	flag(iv.SVGKeepComments, "--svg-keep-comments")
+	if iv.JSPrecision != 0 {
+		a = append(a, fmt.Sprintf("--js-precision=%d", iv.JSPrecision))
+	}
+	if iv.JSVersion != 0 {
+		a = append(a, fmt.Sprintf("--js-version=%d", iv.JSVersion))
+	}
 	if iv.CSSPrecision != 0 {
 		a = append(a, fmt.Sprintf("--css-precision=%d", iv.CSSPrecision))
 	}
@@ -138,11 +162,14 @@ func (iv *Inv) Args() []string {
 // registry builds the library registry the documented way for the invocation's options.
 func (iv *Inv) registry() *minify.M {
 	m := minify.New()
-	h := &html.Minifier{KeepComments: iv.HTMLKeepComments, KeepEndTags: iv.HTMLKeepEndTags, KeepQuotes: iv.HTMLKeepQuotes, KeepWhitespace: iv.HTMLKeepWhitespace}
+	// the site URL is set on the registry whether or not --url is given (an empty URL, not nil)
+	m.URL, _ = url.Parse(iv.URL)
+	h := &html.Minifier{KeepComments: iv.HTMLKeepComments, KeepEndTags: iv.HTMLKeepEndTags, KeepQuotes: iv.HTMLKeepQuotes, KeepWhitespace: iv.HTMLKeepWhitespace,
+		KeepSpecialComments: iv.HTMLKeepSpecialComments, KeepDefaultAttrVals: iv.HTMLKeepDefaultAttrVals, KeepDocumentTags: iv.HTMLKeepDocumentTags}
 	m.Add("text/css", &css.Minifier{Precision: iv.CSSPrecision})
 	m.Add("text/html", h)
-	m.Add("image/svg+xml", &svg.Minifier{Precision: iv.SVGPrecision})
-	m.AddRegexp(regexp.MustCompile("^(application|text)/(x-)?(java|ecma|j|live)script(1\\.[0-5])?$|^module$"), &js.Minifier{KeepVarNames: iv.JSKeepVarNames})
+	m.Add("image/svg+xml", &svg.Minifier{Precision: iv.SVGPrecision, KeepComments: iv.SVGKeepComments})
+	m.AddRegexp(regexp.MustCompile("^(application|text)/(x-)?(java|ecma|j|live)script(1\\.[0-5])?$|^module$"), &js.Minifier{KeepVarNames: iv.JSKeepVarNames, Precision: iv.JSPrecision, Version: iv.JSVersion})
 	m.AddRegexp(regexp.MustCompile("[/+]json$"), &json.Minifier{Precision: iv.JSONPrecision, KeepNumbers: iv.JSONKeepNumbers})
 	m.AddRegexp(regexp.MustCompile("[/+]xml$"), &xml.Minifier{KeepWhitespace: iv.XMLKeepWhitespace})
 	tm := func(a, b string) *html.Minifier {
